@@ -93,11 +93,23 @@ struct Plain<'a, T: Elem> {
     next: usize,
     end: usize,
     pulled: &'a mut usize,
+    /// which (legal) size hint the iterator reports: 0 = (0, None), 1 = exact, 2 = (0, Some(len)), 3 = (len, None)
+    hint: u8,
     _p: std::marker::PhantomData<T>,
 }
 
 impl<T: Elem> Iterator for Plain<'_, T> {
     type Item = T;
+
+    fn size_hint(&self) -> (usize, Option<usize>) {
+        let rem = self.end - self.next;
+        match self.hint {
+            1 => (rem, Some(rem)),
+            2 => (0, Some(rem)),
+            3 => (rem, None),
+            _ => (0, None),
+        }
+    }
 
     fn next(&mut self) -> Option<T> {
         if self.next < self.end {
@@ -350,6 +362,7 @@ fn run_history<T: Elem>(sc: &Sc, obs: &mut Obs) -> Vec<Violation> {
                             next: first,
                             end: first + *n,
                             pulled: &mut pulled,
+                            hint: (first % 4) as u8,
                             _p: std::marker::PhantomData,
                         };
                         st.try_extend(&mut it)
